@@ -209,9 +209,27 @@ static void do_script(const kv& m) {
 }
 
 // ------------------------------------------------------------------------------------ spends (--tx / --txin sessions)
+// every signature verification reports its arguments: the link wraps CPubKey::Verify and XOnlyPubKey::VerifySchnorr (ld --wrap, no source hook)
+static std::string g_case;
+// the signing log is routed to this no-op; CHECKMULTISIG's diagnostic re-verification of misplaced signatures switches the log
+// to btc_logf_dummy while it runs, which is how those (result-less) verifications are told apart and not reported
+static void vh_sign_log(const char* fmt...) {}
+static inline bool vh_reporting() { return !g_case.empty() && btc_sign_logf != btc_logf_dummy; }
+extern "C" bool __real__ZNK7CPubKey6VerifyERK7uint256RKSt6vectorIhSaIhEE(const CPubKey* self, const uint256& hash, const std::vector<unsigned char>& sig);
+extern "C" bool __wrap__ZNK7CPubKey6VerifyERK7uint256RKSt6vectorIhSaIhEE(const CPubKey* self, const uint256& hash, const std::vector<unsigned char>& sig) {
+    if (vh_reporting()) fprintf(OUT, "R %s D ecdsa %s %s %s\n", g_case.c_str(), hexitem(bytes(hash.begin(), hash.end())).c_str(), hexitem(bytes(self->begin(), self->end())).c_str(), hexitem(sig).c_str());
+    return __real__ZNK7CPubKey6VerifyERK7uint256RKSt6vectorIhSaIhEE(self, hash, sig);
+}
+extern "C" bool __real__ZNK11XOnlyPubKey13VerifySchnorrERK7uint2564SpanIKhE(const XOnlyPubKey* self, const uint256& msg, Span<const unsigned char> sig);
+extern "C" bool __wrap__ZNK11XOnlyPubKey13VerifySchnorrERK7uint2564SpanIKhE(const XOnlyPubKey* self, const uint256& msg, Span<const unsigned char> sig) {
+    if (vh_reporting()) fprintf(OUT, "R %s D schnorr %s %s %s\n", g_case.c_str(), hexitem(bytes(msg.begin(), msg.end())).c_str(), hexitem(bytes(self->begin(), self->end())).c_str(), hexitem(bytes(sig.begin(), sig.end())).c_str());
+    return __real__ZNK11XOnlyPubKey13VerifySchnorrERK7uint2564SpanIKhE(self, msg, sig);
+}
+
 static void do_spend(const kv& m) {
     // tx=<hexstr of --tx arg> txin=<hexstr of --txin arg> [sel=<n>] flags=<n> [z=1] [pv=<hexstr>] cmds=...
     std::string id = get(m, "id");
+    g_case = id;
     Instance inst;
     std::string a = unhexstr(get(m, "tx")), b = unhexstr(get(m, "txin"));
     try {
@@ -343,6 +361,7 @@ static void do_tx(const kv& m) {
 
 // ------------------------------------------------------------------------------------ dispatcher
 static void run_case(const std::string& line) {
+    g_case.clear();
     std::istringstream is(line);
     std::string kind, tok;
     is >> kind;
@@ -367,6 +386,7 @@ static void run_case(const std::string& line) {
 int main(int argc, char** argv) {
     OUT = fdopen(dup(1), "w");   // the protocol stream stays valid while stdout is temporarily redirected
     btc_logf = btc_logf_dummy;
+    btc_sign_logf = vh_sign_log;
     std::vector<std::string> lines;
     {
         std::istream* in = &std::cin;
